@@ -160,6 +160,69 @@ fn symbols() -> Vec<(String, Box<QRCode>)> {
     v
 }
 
+type Sig = Vec<(i64, i64, i64, i64, i64, i64, usize, bool)>;
+
+/// geometry of one layer: per sub-path (start point, bounding box, number of segments, closed), sorted
+fn layer_signature(d: &str) -> Option<Sig> {
+    let subs = crate::parse::svgpath::subpaths(d).ok()?;
+    let r = |x: f64| (x * 1000.0).round() as i64;
+    let mut v: Sig = subs.iter().map(|s| (r(s.start.0), r(s.start.1), r(s.minx), r(s.miny), r(s.maxx), r(s.maxy), s.segments, s.closed)).collect();
+    v.sort();
+    Some(v)
+}
+
+fn path_ds(doc: &str) -> Option<Vec<String>> {
+    let root = crate::parse::xml::parse(doc).ok()?;
+    Some(root.children.iter().filter(|c| c.name == "path").filter_map(|c| c.attr("d").map(|d| d.to_string())).collect())
+}
+
+/// what a builder configured with this shape alone (default colour) draws for this symbol and margin
+fn reference_layer(q: &QRCode, qd: u64, margin: usize, shape: usize) -> Option<std::sync::Arc<Sig>> {
+    use std::collections::HashMap;
+    use std::sync::{Arc, Mutex, OnceLock};
+    static CACHE: OnceLock<Mutex<HashMap<(u64, usize, usize), Option<Arc<Sig>>>>> = OnceLock::new();
+    let cache = CACHE.get_or_init(|| Mutex::new(HashMap::new()));
+    if let Some(v) = cache.lock().unwrap().get(&(qd, margin, shape)) {
+        return v.clone();
+    }
+    let sig = subject::guarded(|| {
+        let mut b = SvgBuilder::default();
+        b.margin(margin).shape(svgcheck::SHAPES[shape]);
+        b.to_str(q)
+    })
+    .ok()
+    .and_then(|doc| path_ds(&doc))
+    .and_then(|ds| if ds.len() == 1 { layer_signature(&ds[0]) } else { None })
+    .map(Arc::new);
+    cache.lock().unwrap().insert((qd, margin, shape), sig.clone());
+    sig
+}
+
+/// every configured layer draws what its shape draws when configured alone (same symbol, same margin): the shape of
+/// a layer does not depend on the layers around it
+fn check_layer_shapes(doc: &str, q: &QRCode, model: &SvgModel) -> Vec<(String, String)> {
+    let mut out = vec![];
+    if model.layers.is_empty() || (model.layers.len() == 1 && model.layers[0].1.is_none()) {
+        return out;
+    }
+    let ds = match path_ds(doc) {
+        Some(d) if d.len() == model.layers.len() => d,
+        _ => return out, // reported by the structural check
+    };
+    let qd = subject::digest(q);
+    for (li, (d, (shape, _))) in ds.iter().zip(model.layers.iter()).enumerate() {
+        let (got, want) = match (layer_signature(d), reference_layer(q, qd, model.margin, *shape)) {
+            (Some(g), Some(w)) => (g, w),
+            _ => continue,
+        };
+        if got != *want {
+            out.push(("layer-shape".into(), format!("layer {} is configured as {} but its sub-paths are not those a builder configured with {} alone draws for this symbol and margin ({} sub-paths against {}; layers {:?})", li, svgcheck::SHAPE_NAMES[*shape], svgcheck::SHAPE_NAMES[*shape], got.len(), want.len(), model.layers.iter().map(|l| svgcheck::SHAPE_NAMES[l.0]).collect::<Vec<_>>())));
+            break;
+        }
+    }
+    out
+}
+
 /// renders a program on a fresh real builder; returns findings
 pub fn run_program(prog: &[Op], q: &QRCode) -> (Vec<(String, String)>, Option<u64>, SvgModel) {
     let mut model = SvgModel::default();
@@ -177,7 +240,10 @@ pub fn run_program(prog: &[Op], q: &QRCode) -> (Vec<(String, String)>, Option<u6
         Ok(doc) => {
             let n = q.size;
             let vals = subject::values(q);
-            let (f, _) = svgcheck::check_svg(&doc, &vals, n, &model);
+            let (mut f, _) = svgcheck::check_svg(&doc, &vals, n, &model);
+            if f.is_empty() {
+                f.extend(check_layer_shapes(&doc, q, &model));
+            }
             (f, Some(crate::util::fnv(doc.as_bytes())), model)
         }
         Err(msg) => (vec![("panic".into(), format!("SvgBuilder panicked: {}", msg))], None, model),
@@ -205,6 +271,13 @@ pub fn replay(case: &Value) -> Result<Vec<(String, String)>, String> {
             let m = case.get("margin").and_then(|x| x.as_u64()).ok_or("margin")? as usize;
             let q = sweep_symbol(v).ok_or("build failed")?;
             let (f, _, _) = run_program(&[Op::Shape(s), Op::Margin(m)], &q);
+            Ok(f.into_iter().map(|(k, w)| (format!("C12/{}", k), w)).collect())
+        }
+        "svg-layers" => {
+            let v = case.get("version").and_then(|x| x.as_u64()).ok_or("version")? as usize;
+            let prog: Vec<Op> = case.get("program").and_then(|p| p.as_array()).ok_or("no program")?.iter().map(Op::from_json).collect::<Option<Vec<_>>>().ok_or("bad op")?;
+            let q = sweep_symbol(v).ok_or("build failed")?;
+            let (f, _, _) = run_program(&prog, &q);
             Ok(f.into_iter().map(|(k, w)| (format!("C12/{}", k), w)).collect())
         }
         "svg-image" => {
@@ -253,7 +326,7 @@ fn colour_routes(c: [u8; 4]) -> Vec<String> {
 
 pub fn run(ctx: &Ctx) -> Collector {
     let col = Collector::new("C12", "model_checking");
-    col.set_rule("E2: breadth-first search over ALL SvgBuilder programs up to depth D (quick 3, thorough 4) over a 32-operation alphabet {shape x6, shape_color x6x2 + 2 with the default / the later module colour, margin x4, module_color, background_color, image(with & < > \" '), image_background_color, image_background_shape, image_size, image_gap, image_position}; model state = (layer list, margin, module colour, background, image) hashed and counted; every program (path) is replayed on a fresh real SvgBuilder and rendered on a v1 and a v2 symbol; oracle: own strict XML parser accepts the document; square viewBox/background of side size+2*margin in the background colour; one <path> per layer in order with the layer's colour; own path interpreter puts the sub-paths in bijection with the dark modules (centre inside the unit cell anchored at (col+margin,row+margin), box within the cell grown by 0.1, none on light modules or quiet zone); one <image> whose entity-decoded href equals the configured string. Sweeps: 40 versions x 6 shapes x 4 margins; colour formatting (all 4x256 single-channel values and the 8^4 edge grid through every conversion route); image strings: all 820 strings of length <= 3 over {a & < > \" ' space ; #} + realistic URLs/data URIs/paths; non-trivial = a document was rendered; distinct = distinct documents");
+    col.set_rule("E2: breadth-first search over ALL SvgBuilder programs up to depth D (quick 3, thorough 4) over a 32-operation alphabet {shape x6, shape_color x6x2 + 2 with the default / the later module colour, margin x4, module_color, background_color, image(with & < > \" '), image_background_color, image_background_shape, image_size, image_gap, image_position}; model state = (layer list, margin, module colour, background, image) hashed and counted; every program (path) is replayed on a fresh real SvgBuilder and rendered on a v1 and a v2 symbol; oracle: own strict XML parser accepts the document; square viewBox/background of side size+2*margin in the background colour; one <path> per layer in order with the layer's colour; own path interpreter puts the sub-paths in bijection with the dark modules (centre inside the unit cell anchored at (col+margin,row+margin), box within the cell grown by 0.1, none on light modules or quiet zone); every layer's sub-paths (start point, bounding box, segment count) equal those a builder configured with that shape alone draws for the same symbol and margin; one <image> whose entity-decoded href equals the configured string. Sweeps: 40 versions x 6 shapes x 4 margins; 3 to 8 layers on versions 20/30/40 (documents of several MB); colour formatting (all 4x256 single-channel values and the 8^4 edge grid through every conversion route); image strings: all 820 strings of length <= 3 over {a & < > \" ' space ; #} + realistic URLs/data URIs/paths; non-trivial = a document was rendered; distinct = distinct documents");
     col.assume("custom Shape::Command callbacks and colours given as arbitrary strings are outside the quantifier as written; not explored");
     col.assume("geometry is judged on bounding boxes of flattened sub-paths (own interpreter), not on path syntax or emission order");
     let thorough = ctx.tier.thorough();
@@ -349,6 +422,38 @@ pub fn run(ctx: &Ctx) -> Collector {
     });
     col.space(json!({"name": "versions x shapes x margins", "cases": cases.len(), "what": "all 40 versions (byte payload at level-M capacity) x 6 built-in shapes x margins {0,1,4,16}, and margins {79,100,255,300,1000} with one shape per version, single layer", "exhaustive": true, "wall_s": (t1.elapsed().as_secs_f64() * 100.0).round() / 100.0}));
     col.sample(json!({"kind": "svg-sweep", "version": 40, "shape": 1, "margin": 16}));
+
+    // ---- many layers on large symbols (documents of 1 MB and more)
+    let t1c = std::time::Instant::now();
+    let layer_lists: Vec<Vec<usize>> = vec![vec![0, 1, 5, 2], vec![0, 1, 2, 3, 4, 5], vec![5, 4, 3, 2, 1, 0, 5, 0], vec![1, 0, 1], vec![2, 3, 2, 4, 3]];
+    let big_versions: Vec<usize> = if thorough { vec![10, 20, 25, 30, 35, 40] } else { vec![20, 30, 40] };
+    let mut big = vec![];
+    for &v in &big_versions {
+        for ll in &layer_lists {
+            for m in [0usize, 4] {
+                big.push((v, ll.clone(), m));
+            }
+        }
+    }
+    pool::par_for(big.len(), |i| {
+        let (v, ll, m) = &big[i];
+        match &qs[*v - 1] {
+            Some(q) => {
+                let mut prog: Vec<Op> = ll.iter().enumerate().map(|(j, &s)| if j % 2 == 1 { Op::ShapeColor(s, [255, 0, 0, 255]) } else { Op::Shape(s) }).collect();
+                prog.push(Op::Margin(*m));
+                let (f, digest, _) = run_program(&prog, q);
+                col.eval(digest);
+                for (k, w) in f {
+                    col.violation((12, i as u64), format!("C12/{}", k), format!("v{} layers {:?} margin {}: {}", v, ll, m, w), json!({"kind": "svg-layers", "version": v, "program": prog.iter().map(|o| o.to_json()).collect::<Vec<_>>()}));
+                }
+            }
+            None => {
+                col.eval(None);
+                col.skipped_panic();
+            }
+        }
+    });
+    col.space(json!({"name": "many layers on large symbols", "cases": big.len(), "what": format!("versions {:?} x 5 layer lists of 3 to 8 layers (every second one with its own colour; repeats with another shape in between) x margins {{0, 4}}: documents up to several MB", big_versions), "exhaustive": true, "wall_s": (t1c.elapsed().as_secs_f64() * 100.0).round() / 100.0}));
 
     // ---- synthetic matrices (QRCode::default(size) + set): blank rows and columns, isolated modules, full rows
     let t1b = std::time::Instant::now();
